@@ -1407,7 +1407,7 @@ func w1Gen(c *simrt.Choice, prop, tier string) any {
 			case 1:
 				op = w1Op{K: "unsub", Ch: pickCh()}
 			case 2:
-				op = w1Op{K: "sleep", DelayUs: []int{1, 100, 2000, 100000, 1500000}[c.Intn(5)]}
+				op = w1Op{K: "sleep", DelayUs: []int{1, 100, 2000, 100000, 1500000, 1000000, 1000100}[c.Intn(7)]}
 			case 3:
 				op = w1Op{K: "pub", Ch: pickCh()}
 			case 4:
